@@ -10,37 +10,41 @@ size_t P, D; bool meTry, meP; int g_mode; size_t g_delta;
 struct limiter;
 static struct limiter *L;
 #include "limiter_decl.h"
-static bool STUB_pred_empty(void) { return nondet_bool(); }
-static bool STUB_succ_empty(void) { return nondet_bool(); }
-static bool STUB_is_graph_active(void) { return nondet_bool(); }
+static bool STUB_pred_empty(void) { return in_section ? g_pe : nondet_bool(); }
+static bool STUB_succ_empty(void) { return in_section ? g_se : nondet_bool(); }
+static bool STUB_is_graph_active(void) { return in_section ? g_ga : nondet_bool(); }
 static void section_end(void);
 static bool STUB_pred_try_reserve(void) { section_end(); return nondet_bool(); }
 static void STUB_pred_try_consume(void) {}
 static void STUB_pred_try_release(void) {}
-static graph_task *STUB_new_forward_task(void) { return &the_task; }
+static graph_task *STUB_new_forward_task(void) { g_fwd_made_sec++; return &the_task; }
 static void STUB_spawn(graph_task *t) {}
-static graph_task *STUB_forward_task(struct limiter *s) { return nondet_bool() ? &the_task : NULL; }
+size_t g_fwd_calls;
+static graph_task *STUB_forward_task(struct limiter *s) { section_end(); g_fwd_calls++; return nondet_bool() ? &the_task : NULL; }
 #include "limiter.inc"
-void h_lim_try_put(void) {
-    struct limiter l; L = &l; lim_init(&l); g_mode = 0; in_section = false;
+static void lim_try_put(bool early_decrement) {
+    struct limiter l; L = &l; lim_init(&l); g_mode = 0; in_section = false; g_dom_early_decrement = early_decrement; g_absorbed = false;
     graph_task *r = limiter_try_put_task_impl(&l);
     lim_end();
-    VACUITY_END();
+    __CPROVER_assume(g_absorbed == early_decrement);
 }
+void h_lim_try_put(void) { lim_try_put(false); VACUITY_END(); }
+void h_lim_try_put_early(void) { lim_try_put(true); VACUITY_END(); }
 void h_lim_forward(void) {
-    struct limiter l; L = &l; lim_init(&l); g_mode = 0; in_section = false;
+    struct limiter l; L = &l; lim_init(&l); g_mode = 0; in_section = false; g_dom_early_decrement = true; g_absorbed = false;
     graph_task *r = limiter_forward_task(&l);
     lim_end();
     VACUITY_END();
 }
 long long IN_delta;
 void h_lim_decrement(void) {
-    struct limiter l; L = &l; lim_init(&l); g_mode = 1; in_section = false;
+    struct limiter l; L = &l; lim_init(&l); g_mode = 1; in_section = false; g_dom_early_decrement = true; g_absorbed = false;
     long long delta = IN_delta = nondet_i64();
     __CPROVER_assume(delta > 0 && (size_t)delta <= l.my_threshold);     /* stated precondition; negative deltas and over-decrement are out of scope */
-    g_delta = (size_t)delta;
+    g_delta = (size_t)delta; g_fwd_calls = 0;
     limiter_decrement_counter(&l, delta);
     lim_end();
+    OBLIGATION(g_fwd_calls == 1, "C15.limiter: a decrement is followed by one forwarding attempt (forward_task), which pulls a message a predecessor kept while the limiter was full");
     VACUITY_END();
 }
 #endif
@@ -136,4 +140,813 @@ static void push_common(bool tagmax) {
 }
 void h_seq_push(void) { push_common(false); VACUITY_END(); }
 void h_seq_push_tagmax(void) { push_common(true); VACUITY_END(); }
+#define IN_WIN(b, j) ((j) >= (b)->my_head && (j) < (b)->my_tail)
+/* queue-shaped buffer at an arbitrary index j: every index of [head,tail) holds an item, every other slot of the window is empty */
+#define QRI(b, j) (IN_WIN(b, j) ? SLOTN(b, j).state == has_item : (!((j) - (b)->my_head < (b)->my_array_size) || SLOTN(b, j).state == no_item))
+#define SHAPE_POST(b) (POW2((b)->my_array_size) && (b)->my_array_size >= 4 && (b)->my_head <= (b)->my_tail && (b)->my_tail - (b)->my_head <= (b)->my_array_size)
+#ifdef JQP
+/* join_node, queueing policy: queueing_port::handle_operations - ONE arbitrary operation in an arbitrary invariant state (inductive step of the batch loop)
+   on the real item_buffer.  Ghost g_counted: this port is currently counted by the join as 'has an item' (it has decremented ports_with_no_items since the
+   count was last re-armed); g_inwin: the join has re-armed the count (tuple accepted) and has not yet retired this port's front item. */
+typedef struct graph_task { int d; } graph_task;
+static graph_task T_enq, T_fwd;
+#define SUCCESSFULLY_ENQUEUED (&T_enq)
+typedef struct queueing_port_operation { char type; item_type my_val; item_type *my_arg; graph_task *bypass_t; int status; struct queueing_port_operation *next; } queueing_port_operation;
+unsigned g_status_sets; size_t g_dec_calls; bool g_dec_handle, g_counted, g_inwin; graph_task *g_dec_ret;
+#define SET_STATUS(op, st) do { __CPROVER_assert((op)->status == WAIT, "C15.join.qport: an operation gets exactly one final status"); (op)->status = (st); g_status_sets++; } while (0)
+static graph_task *FE_decrement_port_count(struct item_buffer *self, bool handle_task) {
+    OBLIGATION(!g_counted, "C15.join.qport: a port is counted as 'has an item' at most once per round");
+    OBLIGATION(IN_WIN(self, self->my_head) && SLOTN(self, self->my_head).state == has_item, "C15.join.qport: a port reports an item to the join only while it holds one");
+    g_counted = true; g_dec_calls++; g_dec_handle = handle_task;
+    g_dec_ret = (!handle_task && nondet_bool()) ? &T_fwd : NULL;      /* contract of join_node_FE<queueing>::decrement_port_count (job join.fe.queueing.decrement) */
+    return g_dec_ret;
+}
+#define LOOP_qpho_1
+#include "queueing_port.inc"
+#define QP_INV(b) (g_inwin ? (!g_counted && (b)->my_head < (b)->my_tail) : (g_counted == ((b)->my_head < (b)->my_tail)))
+#ifndef OPK
+#define OPK 0
+#endif
+int IN_type;
+void h_qp_op(void) {
+    struct item_buffer *b = mk_buffer();
+    size_t h0 = b->my_head, t0 = b->my_tail; GH = nondet_size_t(); GH2 = t0;
+    __CPROVER_assume(QRI(b, GH) && QRI(b, h0) && QRI(b, h0 + 1) && QRI(b, t0));       /* instances of the (universal) representation invariant */
+    g_counted = nondet_bool(); g_inwin = nondet_bool(); __CPROVER_assume(QP_INV(b));
+    g_status_sets = 0; g_dec_calls = 0; g_dec_ret = NULL; g_dec_handle = false;
+    bool in0 = IN_WIN(b, GH); item_type x0 = SLOTN(b, GH).item, front0 = SLOTN(b, h0).item;
+    int type = IN_type = OPK; item_type got = nondet_int(), got0 = got, v = nondet_int();
+    queueing_port_operation op; op.type = (char)type; op.my_val = v; op.my_arg = NULL; op.bypass_t = NULL; op.status = WAIT; op.next = NULL;
+    if (type == get__item) op.my_arg = &got;
+    if (type == res_port) __CPROVER_assume(g_inwin);           /* reset_port is issued by tuple_accepted only: after reset_port_count, once per port (job join.fe.queueing.tuple) */
+    if (type == try__put_task) __CPROVER_assume(t0 - h0 < MAXCAP && t0 + 1 < ((size_t)1 << 62));   /* stated size bound of the grow_my_array contract */
+    qp_handle_operations(b, &op);
+    if (type == res_port) g_inwin = false;
+    size_t h1 = b->my_head, t1 = b->my_tail;
+    OBLIGATION(g_status_sets == 1 && (op.status == SUCCEEDED || op.status == FAILED), "C15.join.qport: the operation gets exactly one status");
+    OBLIGATION(SHAPE_POST(b) && QRI(b, GH), "C15.join.qport: the port buffer stays a gap-free queue (representation invariant at an arbitrary index)");
+    OBLIGATION(QP_INV(b), "C15.join.qport: the port is counted by the join as 'has an item' exactly when it holds one (except between the re-arming of the count and the retirement of its front item)");
+    OBLIGATION(g_dec_ret == NULL || op.bypass_t == g_dec_ret, "C15.join.qport: a forward task handed back by the join is passed on in the operation record, not dropped");
+    if (type == try__put_task) {
+        OBLIGATION(op.status == SUCCEEDED && h1 == h0 && t1 == t0 + 1 && SLOTN(b, t0).state == has_item && SLOTN(b, t0).item == v, "C15.join.qport: a put appends the message behind everything already queued (arrival order)");
+        OBLIGATION(!in0 || SLOTN(b, GH).item == x0, "C15.join.qport: messages already queued keep their place and value");
+        OBLIGATION(g_dec_calls == ((h0 == t0) ? 1 : 0), "C15.join.qport: the join is told 'this port now has an item' exactly when the port goes from empty to non-empty");
+        OBLIGATION(op.bypass_t == g_dec_ret || (g_dec_calls == 0 && op.bypass_t == SUCCESSFULLY_ENQUEUED), "C15.join.qport: the put reports the join's forward task, or plain success");
+    } else if (type == get__item) {
+        OBLIGATION((op.status == SUCCEEDED) == (h0 < t0), "C15.join.qport: get_item fails exactly on an empty port");
+        OBLIGATION(op.status == SUCCEEDED ? got == front0 : got == got0, "C15.join.qport: get_item hands out the front (oldest) message of the port");
+        OBLIGATION(h1 == h0 && t1 == t0 && (!in0 || SLOTN(b, GH).item == x0) && g_dec_calls == 0, "C15.join.qport: get_item consumes nothing (the message stays queued until the tuple is accepted)");
+    } else {
+        OBLIGATION(op.status == SUCCEEDED && h1 == h0 + 1 && t1 == t0 && SLOTN(b, h0).state == no_item, "C15.join.qport: reset_port retires exactly the front message (the one that went into the accepted tuple)");
+        OBLIGATION(!(in0 && GH != h0) || SLOTN(b, GH).item == x0, "C15.join.qport: the messages behind it keep their place and value");
+        OBLIGATION(g_dec_calls == ((t0 - h0 > 1) ? 1 : 0), "C15.join.qport: after the retirement the port is counted again exactly when another message is waiting");
+    }
+    VACUITY_END();
+}
+#endif
+#endif
+
+#if defined(JFEQ) || defined(JFER)
+/* join_node front ends (join_node_FE<queueing>, join_node_FE<reserving>) with the tuple recursion of join_helper<N>, N = tuple size, symbolic in 1..10.
+   The ports are stubs with the behaviour that the port-handler jobs prove.  All facts are about ONE arbitrary port g_k (ghost index). */
+typedef int item_type;
+typedef struct graph_task { int d; } graph_task;
+static graph_task T_fwd;
+typedef struct output_type { item_type e[10]; } output_type;
+#define TUPLE_AT(out, i) (&(out)->e[i])
+int N, g_k;
+struct fe; typedef struct fe ports_t;
+static struct fe *F;
+bool g_active; size_t g_made, g_spawned;
+static bool STUB_is_graph_active(void) { return g_active; }
+static graph_task *STUB_new_forward_task(struct fe *self) { g_made++; return &T_fwd; }
+static void STUB_spawn(graph_task *t) { OBLIGATION(t == &T_fwd, "C15.join.fe: only a real task is spawned"); g_spawned++; }
+#endif
+
+#ifdef JFEQ
+/* queueing policy.  Shared word: ports_with_no_items.  Ghost census: g_ck = port g_k is counted as 'has an item'; g_nco = number of counted ports among the
+   N-1 others.  INV: ports_with_no_items + g_nco + g_ck == N.  A port is counted by its own (serialised) handler when it goes from empty to non-empty, or when
+   its front item is retired and another one waits (jobs join.qport.*); the count is re-armed (all flags cleared) only by the join's exclusive forwarder. */
+#include "join_fe_queueing_struct.inc"
+#define CNT(f) ((f)->ports_with_no_items)
+size_t g_nco; bool g_ck, g_inwin_k, g_armed; int g_role, g_dec_port;   /* g_role 0: a port handler counting port g_dec_port; 1: the forwarder (base handler) */
+#define NC (g_nco + (g_ck ? 1 : 0))
+#define FINV(f) (g_nco <= (size_t)(N - 1) && CNT(f) + NC == (size_t)N)
+static void interfere(void) {
+    size_t nco0 = g_nco; bool ck0 = g_ck;
+    CNT(F) = nondet_size_t(); g_nco = nondet_size_t(); g_ck = nondet_bool();
+    __CPROVER_assume(FINV(F));
+    __CPROVER_assume(g_nco >= nco0 && (!ck0 || g_ck));                    /* rely: other threads only count ports; nobody but the forwarder re-arms */
+    if (g_role == 0 && g_dec_port == g_k) __CPROVER_assume(g_ck == ck0);  /* only port g_k's own handler counts port g_k */
+    if (g_role == 0 && g_dec_port != g_k) __CPROVER_assume(g_nco + 1 <= (size_t)(N - 1));   /* the calling port (one of the others) is still uncounted */
+    if (g_inwin_k) __CPROVER_assume(g_ck == ck0);                         /* a non-empty port that waits for its retirement is not counted by a put */
+}
+size_t g_load; bool g_last_port;
+#define ATOMIC_LOAD_AT(site, f) ({ interfere(); g_load = (f); g_load; })
+#define ATOMIC_STORE_AT(site, f, v) do { interfere(); GHOSTPRE_##site; (f) = (v); GHOST_##site; __CPROVER_assert(FINV(F), "C15.join.fe guarantee: ports_with_no_items + (ports counted as non-empty) == N after " #site); } while (0)
+#define ATOMIC_FETCH_SUB_AT(site, f, d) ({ interfere(); size_t old_ = (f); (f) = old_ - (d); GHOST_##site; __CPROVER_assert(FINV(F), "C15.join.fe guarantee: ports_with_no_items + (ports counted as non-empty) == N after " #site); old_; })
+#define GHOSTPRE_reset_port_count_STORE_1 OBLIGATION(g_role == 1 && NC == (size_t)N, "C15.join.fe: the count is re-armed only by the forwarder, after a complete tuple (every port counted)")
+#define GHOST_reset_port_count_STORE_1 do { g_nco = 0; g_ck = false; g_armed = true; g_inwin_k = true; } while (0)
+#define GHOST_decrement_port_count_FETCH_SUB_1 do { if (g_dec_port == g_k) g_ck = true; else g_nco++; g_last_port = NC == (size_t)N; } while (0)
+size_t g_gets, g_fails, g_get_k, g_resets, g_reset_k; item_type g_val_k;
+static bool PORT_get_item(ports_t *f, int k, item_type *v) {
+    OBLIGATION(k >= 0 && k < N, "C15.join.fe: only existing ports are addressed");
+    bool ok = nondet_bool();
+    if ((k == g_k && g_ck) || (k != g_k && g_nco == (size_t)(N - 1))) ok = true;     /* a counted port holds a message (job join.qport.*: invariant) and hands out its front one */
+    g_gets++; if (!ok) { g_fails++; return false; }
+    *v = nondet_int(); if (k == g_k) { g_get_k++; g_val_k = *v; }
+    return true;
+}
+graph_task *fe_decrement_port_count(struct fe *self, bool handle_task);
+static void PORT_reset_port(ports_t *f, int k) {
+    OBLIGATION(k >= 0 && k < N, "C15.join.fe: only existing ports are addressed");
+    OBLIGATION(g_armed, "C15.join.fe: the count is re-armed before any port is retired (a port that still holds a message is counted again by its retirement)");
+    g_resets++;
+    if (k == g_k) { g_reset_k++; g_inwin_k = false; }
+    if (nondet_bool()) {            /* another message waits in the port: its handler counts the port again (job join.qport.reset_port) */
+        if (k == g_k) __CPROVER_assume(!g_ck); else __CPROVER_assume(g_nco + 1 <= (size_t)(N - 1));
+        int r0 = g_role; g_role = 0; g_dec_port = k;
+        graph_task *t = fe_decrement_port_count(f, true);
+        OBLIGATION(t == NULL, "C15.join.fe: with handle_task the forward task is spawned by the join, not returned");
+        g_role = r0;
+    }
+}
+static bool PORT_reserve(ports_t *f, int k, item_type *v) { __CPROVER_assert(0, "not used by the queueing policy"); return false; }
+static void PORT_consume(ports_t *f, int k) { __CPROVER_assert(0, "not used by the queueing policy"); }
+static void PORT_release(ports_t *f, int k) { __CPROVER_assert(0, "not used by the queueing policy"); }
+#include "join_helper.inc"
+#include "join_fe_queueing.inc"
+static void feq_init(struct fe *f) {
+    F = f; N = nondet_int(); g_k = nondet_int(); __CPROVER_assume(N >= 1 && N <= 10 && g_k >= 0 && g_k < N);
+    CNT(f) = nondet_size_t(); g_nco = nondet_size_t(); g_ck = nondet_bool(); __CPROVER_assume(FINV(f));
+    g_active = nondet_bool(); g_made = g_spawned = g_gets = g_fails = g_get_k = g_resets = g_reset_k = 0; g_inwin_k = g_armed = g_last_port = false; g_load = 1;
+}
+void h_feq_decrement(void) {
+    struct fe f; feq_init(&f); g_role = 0; int p = g_dec_port = nondet_int(); __CPROVER_assume(p >= 0 && p < N);
+    /* precondition (obligation of join.qport.*): the calling port is not counted yet */
+    if (p == g_k) __CPROVER_assume(!g_ck); else __CPROVER_assume(g_nco + 1 <= (size_t)(N - 1));
+    bool handle = nondet_bool();
+    graph_task *t = fe_decrement_port_count(&f, handle);
+    OBLIGATION((!(g_last_port && g_active) || g_made == 1) && g_made <= 1, "C15.join.fe: the decrement that makes the last port non-empty creates a forward task (while the graph is active), at most one");
+    OBLIGATION(handle ? (t == NULL && g_spawned == g_made) : (g_spawned == 0 && (t != NULL) == (g_made == 1)), "C15.join.fe: the forward task is spawned (handle_task) or returned to the calling port - exactly one of the two");
+    OBLIGATION(p != g_k || g_ck, "C15.join.fe: the calling port is counted");
+    VACUITY_END();
+}
+void h_feq_make_tuple(void) {
+    struct fe f; feq_init(&f); g_role = 1; g_dec_port = -1;
+    output_type out; item_type e0 = nondet_int(); out.e[g_k] = e0;
+    bool ok = fe_try_to_make_tuple(&f, &out);
+    OBLIGATION(ok == (g_load == 0), "C15.join.fe: a tuple is built exactly when every port holds a message (ports_with_no_items == 0)");
+    OBLIGATION(ok || g_gets == 0, "C15.join.fe: while a port is empty no port is asked");
+    OBLIGATION(!ok || (g_fails == 0 && g_gets == (size_t)N), "C15.join.fe: only complete tuples: every port delivered a message");
+    OBLIGATION(!ok || (g_get_k == 1 && out.e[g_k] == g_val_k), "C15.join.fe: component k of the tuple is the front message of port k, fetched exactly once");
+    OBLIGATION(g_resets == 0 && g_made == 0, "C15.join.fe: building a tuple consumes nothing");
+    bool may = fe_tuple_build_may_succeed(&f);
+    OBLIGATION(may == (g_load == 0), "C15.join.fe: tuple_build_may_succeed reports whether every port holds a message");
+    VACUITY_END();
+}
+void h_feq_accept_reject(void) {
+    struct fe f; feq_init(&f); g_role = 1; g_dec_port = -1;
+    __CPROVER_assume(NC == (size_t)N);     /* precondition (job join.base.*): tuple_accepted / tuple_rejected follow a successful try_to_make_tuple, under the base handler's exclusive forwarding */
+    if (nondet_bool()) {
+        fe_tuple_accepted(&f);
+        interfere();
+        OBLIGATION(g_reset_k == 1 && g_resets == (size_t)N, "C15.join.fe: an accepted tuple retires the front message of every port exactly once");
+        OBLIGATION(FINV(&f), "C15.join.fe: afterwards the count again equals the number of ports without a message");
+        OBLIGATION(g_made == g_spawned && g_made <= 1, "C15.join.fe: a forward task for the next tuple is created at most once and spawned");
+    } else {
+        fe_tuple_rejected(&f);
+        interfere();
+        OBLIGATION(g_resets == 0 && g_gets == 0 && NC == (size_t)N && CNT(&f) == 0, "C15.join.fe: a rejected tuple consumes nothing: every port keeps its message and stays counted");
+    }
+    VACUITY_END();
+}
+#endif
+
+#ifdef JFER
+/* reserving policy.  Shared word: ports_with_no_inputs.  Ghost census: g_np_k = port g_k has no predecessor (is counted); g_npo = number of such ports among the
+   N-1 others.  INV: ports_with_no_inputs == g_npo + g_np_k.  Any port handler may count / uncount its own port at any time (edges come and go). */
+#include "join_fe_reserving_struct.inc"
+#define CNT(f) ((f)->ports_with_no_inputs)
+size_t g_npo; bool g_np_k, g_last_port, g_role_dec; int g_role, g_port;
+#define FINV(f) (g_npo <= (size_t)(N - 1) && CNT(f) == g_npo + (g_np_k ? 1 : 0))
+static void interfere(void) {
+    bool k0 = g_np_k;
+    CNT(F) = nondet_size_t(); g_npo = nondet_size_t(); g_np_k = nondet_bool();
+    __CPROVER_assume(FINV(F));
+    if (g_role == 0 && g_port == g_k) __CPROVER_assume(g_np_k == k0);                                   /* only port g_k's own handler changes its flag */
+    if (g_role == 0 && g_port != g_k) __CPROVER_assume(g_role_dec ? g_npo >= 1 : g_npo + 1 <= (size_t)(N - 1));   /* the calling port's own flag is stable */
+}
+size_t g_load;
+#define ATOMIC_LOAD_AT(site, f) ({ interfere(); g_load = (f); g_load; })
+#define ATOMIC_FETCH_SUB_AT(site, f, d) ({ interfere(); size_t old_ = (f); (f) = old_ - (d); GHOST_##site; __CPROVER_assert(FINV(F), "C15.join.fe guarantee: ports_with_no_inputs == number of ports without predecessor after " #site); old_; })
+#define ATOMIC_PREINC_AT(site, f) ({ interfere(); (f) = (f) + 1; GHOST_##site; __CPROVER_assert(FINV(F), "C15.join.fe guarantee: ports_with_no_inputs == number of ports without predecessor after " #site); (f); })
+#define GHOST_decrement_port_count_FETCH_SUB_1 do { if (g_port == g_k) g_np_k = false; else g_npo--; g_last_port = g_npo + (g_np_k ? 1 : 0) == 0; } while (0)
+#define GHOST_increment_port_count_PREINC_1 do { if (g_port == g_k) g_np_k = true; else g_npo++; } while (0)
+size_t g_nres, g_nrel, g_ncon, g_res_k, g_rel_k, g_con_k; bool g_resd_k; item_type g_val_k;
+void fe_increment_port_count(struct fe *self);
+static bool PORT_reserve(ports_t *f, int k, item_type *v) {
+    OBLIGATION(k >= 0 && k < N, "C15.join.fe: only existing ports are addressed");
+    bool ok = nondet_bool();
+    if (k == g_k && g_resd_k) ok = false;                 /* a port that holds a reservation refuses a second one (job join.rport.res_item) */
+    if (!ok) {
+        if (nondet_bool()) {                              /* the port found its last predecessor gone: it counts itself as without input (job join.rport.res_item) */
+            if (k == g_k) __CPROVER_assume(!g_np_k); else __CPROVER_assume(g_npo + 1 <= (size_t)(N - 1));
+            int r0 = g_role; g_role = 0; g_role_dec = false; g_port = k; fe_increment_port_count(f); g_role = r0;
+        }
+        return false;
+    }
+    *v = nondet_int(); g_nres++;
+    if (k == g_k) { g_resd_k = true; g_res_k++; g_val_k = *v; }
+    return true;
+}
+static void PORT_release(ports_t *f, int k) {
+    OBLIGATION(k >= 0 && k < N, "C15.join.fe: only existing ports are addressed");
+    g_nrel++;
+    if (k == g_k) { OBLIGATION(g_resd_k, "C15.join.fe: only a port that holds a reservation is released"); g_resd_k = false; g_rel_k++; }
+}
+static void PORT_consume(ports_t *f, int k) {
+    OBLIGATION(k >= 0 && k < N, "C15.join.fe: only existing ports are addressed");
+    g_ncon++;
+    if (k == g_k) { OBLIGATION(g_resd_k, "C15.join.fe: only a reserved message is consumed"); g_resd_k = false; g_con_k++; }
+}
+static bool PORT_get_item(ports_t *f, int k, item_type *v) { __CPROVER_assert(0, "not used by the reserving policy"); return false; }
+static void PORT_reset_port(ports_t *f, int k) { __CPROVER_assert(0, "not used by the reserving policy"); }
+#include "join_helper.inc"
+#include "join_fe_reserving.inc"
+static void fer_init(struct fe *f) {
+    F = f; N = nondet_int(); g_k = nondet_int(); __CPROVER_assume(N >= 1 && N <= 10 && g_k >= 0 && g_k < N);
+    CNT(f) = nondet_size_t(); g_npo = nondet_size_t(); g_np_k = nondet_bool(); __CPROVER_assume(FINV(f));
+    g_active = nondet_bool(); g_made = g_spawned = g_nres = g_nrel = g_ncon = g_res_k = g_rel_k = g_con_k = 0; g_resd_k = false; g_last_port = false; g_load = 1;
+}
+void h_fer_count(void) {
+    struct fe f; fer_init(&f); g_role = 0; int p = g_port = nondet_int(); __CPROVER_assume(p >= 0 && p < N);
+    if (nondet_bool()) {
+        g_role_dec = true;     /* precondition (job join.rport.reg_pred): the calling port is counted as without predecessor and has just got one */
+        if (p == g_k) __CPROVER_assume(g_np_k); else __CPROVER_assume(g_npo >= 1);
+        graph_task *t = fe_decrement_port_count(&f);
+        OBLIGATION((!(g_last_port && g_active) || g_made == 1) && g_made <= 1, "C15.join.fe: the decrement that gives the last port a predecessor creates a forward task (while the graph is active), at most one");
+        OBLIGATION(t == NULL && g_spawned == g_made, "C15.join.fe: that forward task is spawned, exactly once");
+        OBLIGATION(p != g_k || !g_np_k, "C15.join.fe: the calling port is no longer counted as without predecessor");
+    } else {
+        g_role_dec = false;    /* precondition (jobs join.rport.rem_pred / res_item): the calling port has just lost its last predecessor */
+        if (p == g_k) __CPROVER_assume(!g_np_k); else __CPROVER_assume(g_npo + 1 <= (size_t)(N - 1));
+        fe_increment_port_count(&f);
+        OBLIGATION(g_made == 0 && g_spawned == 0 && (p != g_k || g_np_k), "C15.join.fe: the calling port is counted as without predecessor; nothing is forwarded");
+    }
+    VACUITY_END();
+}
+void h_fer_make_tuple(void) {
+    struct fe f; fer_init(&f); g_role = 1; g_port = -1;
+    output_type out;
+    bool ok = fe_try_to_make_tuple(&f, &out);
+    OBLIGATION(!ok || (g_resd_k && g_res_k == 1 && g_rel_k == 0 && g_nres == (size_t)N && g_nrel == 0), "C15.join.fe: a tuple is made only when every port could be reserved: each port holds exactly one reservation");
+    OBLIGATION(!ok || out.e[g_k] == g_val_k, "C15.join.fe: component k of the tuple is the message reserved at port k");
+    OBLIGATION(ok || (!g_resd_k && g_res_k == g_rel_k && g_nres == g_nrel), "C15.join.fe: when some port cannot be reserved every reservation already taken is released again (none left dangling)");
+    OBLIGATION(g_ncon == 0, "C15.join.fe: building a tuple consumes nothing");
+    VACUITY_END();
+}
+void h_fer_accept_reject(void) {
+    struct fe f; fer_init(&f); g_role = 1; g_port = -1;
+    g_resd_k = true;           /* precondition (job join.base.*): tuple_accepted / tuple_rejected follow a successful try_to_make_tuple: every port holds a reservation */
+    if (nondet_bool()) {
+        fe_tuple_accepted(&f);
+        OBLIGATION(g_con_k == 1 && g_rel_k == 0 && g_ncon == (size_t)N && g_nrel == 0 && !g_resd_k, "C15.join.fe: an accepted tuple consumes the reserved message of every port exactly once");
+    } else {
+        fe_tuple_rejected(&f);
+        OBLIGATION(g_rel_k == 1 && g_con_k == 0 && g_nrel == (size_t)N && g_ncon == 0 && !g_resd_k, "C15.join.fe: a rejected tuple releases the reservation of every port exactly once (the messages stay with their senders)");
+    }
+    VACUITY_END();
+}
+#endif
+
+#ifdef JRP
+/* join_node, reserving policy: reserving_port::handle_operations - ONE arbitrary operation in an arbitrary invariant state.  The predecessor cache
+   (reservable_predecessor_cache, proved under C14 jobs pull.reservable.*) is a ghost: g_npred cached predecessors, g_cres = a reservation is open on one of them.
+   g_counted: the join counts this port as 'without predecessor'. */
+typedef int item_type;
+typedef struct pred { int d; } predecessor_type;
+typedef struct graph_task { int d; } graph_task;
+typedef struct reserving_port_operation { char type; item_type *my_arg; predecessor_type *my_pred; int status; struct reserving_port_operation *next; } reserving_port_operation;
+unsigned g_status_sets; size_t g_npred, g_adds, g_rems, g_tries, g_rels, g_cons, g_decs, g_incs; bool g_cres, g_counted; item_type g_given; predecessor_type *g_pred_arg;
+#define SET_STATUS(op, st) do { __CPROVER_assert((op)->status == WAIT, "C15.join.rport: an operation gets exactly one final status"); (op)->status = (st); g_status_sets++; } while (0)
+struct rport;
+static bool PC_empty(struct rport *self) { return g_npred == 0; }
+static void PC_add(struct rport *self, predecessor_type *p) { OBLIGATION(p == g_pred_arg, "C15.join.rport: the predecessor that is added is the caller's"); g_npred++; g_adds++; }
+static void PC_remove(struct rport *self, predecessor_type *p) { OBLIGATION(p == g_pred_arg, "C15.join.rport: the predecessor that is removed is the caller's"); if (nondet_bool()) g_npred--; g_rems++; }
+static bool PC_try_reserve(struct rport *self, item_type *v) {
+    g_tries++;
+    if (g_cres) return false;                                            /* an open reservation refuses a second one and touches nothing (C14 pull.reservable.try_reserve) */
+    if (g_npred > 0 && nondet_bool()) { size_t n = nondet_size_t(); __CPROVER_assume(n >= 1 && n <= g_npred); g_npred = n; g_given = nondet_int(); *v = g_given; g_cres = true; return true; }
+    g_npred = 0; return false;                                           /* fails only after every cached predecessor was asked, had nothing and was dropped (edge back in push mode) */
+}
+static void PC_try_release(struct rport *self) { OBLIGATION(g_cres, "C15.join.rport: release is forwarded only while a reservation is open"); g_cres = false; g_rels++; }
+static void PC_try_consume(struct rport *self) { OBLIGATION(g_cres, "C15.join.rport: consume is forwarded only while a reservation is open"); g_cres = false; g_cons++; }
+static graph_task *FE_decrement_port_count(struct rport *self) { OBLIGATION(g_counted, "C15.join.rport: only a port that is counted as 'without predecessor' is uncounted"); g_counted = false; g_decs++; return NULL; }
+static void FE_increment_port_count(struct rport *self) { OBLIGATION(!g_counted, "C15.join.rport: a port is counted as 'without predecessor' at most once"); g_counted = true; g_incs++; }
+enum { WAIT = 0, SUCCEEDED = 1, FAILED = 2 };
+#define LOOP_rpho_1
+#include "reserving_port.inc"
+#define RP_INV(p) (g_counted == (g_npred == 0) && (p)->reserved == g_cres && (!g_cres || g_npred >= 1))
+#ifndef OPK
+#define OPK 0
+#endif
+int IN_type;
+void h_rp_op(void) {
+    struct rport p; p.reserved = nondet_bool(); g_npred = nondet_size_t(); g_cres = nondet_bool(); g_counted = nondet_bool(); __CPROVER_assume(RP_INV(&p) && g_npred < ((size_t)1 << 32));
+    g_status_sets = 0; g_adds = g_rems = g_tries = g_rels = g_cons = g_decs = g_incs = 0;
+    int type = IN_type = OPK; item_type v = nondet_int(), v0 = v; predecessor_type pr; g_pred_arg = &pr; size_t n0 = g_npred; bool res0 = p.reserved;
+    reserving_port_operation op; op.type = (char)type; op.my_arg = &v; op.my_pred = &pr; op.status = WAIT; op.next = NULL;
+    if (type == rel_res || type == con_res) __CPROVER_assume(res0);    /* only a port that holds a reservation is released / consumed (jobs join.fe.reserving.*) */
+    if (type == res_item) __CPROVER_assume(n0 >= 1);                   /* reserve is attempted only while ports_with_no_inputs == 0; edges are not removed while the join forwards (stated assumption) */
+    if (type == rem_pred) __CPROVER_assume(!res0);                     /* stated assumption: no edge removal while a reservation is open on the port */
+    rp_handle_operations(&p, &op);
+    OBLIGATION(g_status_sets == 1 && (op.status == SUCCEEDED || op.status == FAILED), "C15.join.rport: the operation gets exactly one status");
+    OBLIGATION(RP_INV(&p), "C15.join.rport: the join counts the port as 'without predecessor' exactly when its predecessor cache is empty; the reserved flag mirrors the open reservation");
+    if (type == reg_pred) OBLIGATION(op.status == SUCCEEDED && g_adds == 1 && g_npred == n0 + 1 && g_decs == (n0 == 0 ? 1 : 0) && g_incs == 0 && g_tries == 0, "C15.join.rport: the predecessor is cached; the port is uncounted exactly when it had none before");
+    if (type == rem_pred) OBLIGATION(op.status == SUCCEEDED && g_rems == (n0 > 0 ? 1 : 0) && g_decs == 0 && g_incs == ((n0 > 0 && g_npred == 0) ? 1 : 0) && g_tries == 0, "C15.join.rport: the predecessor is removed; the port is counted exactly when it lost its last one");
+    if (type == res_item) {
+        OBLIGATION((op.status == SUCCEEDED) ? (!res0 && p.reserved && v == g_given && g_tries == 1) : (p.reserved == res0 && v == v0), "C15.join.rport: a reservation is granted only when none is open and a predecessor gave a message, which is what the join receives");
+        OBLIGATION(!res0 || (g_tries == 0 && g_incs == 0), "C15.join.rport: while a reservation is open a second reserve fails and touches nothing");
+        OBLIGATION(g_rels == 0 && g_cons == 0 && g_decs == 0, "C15.join.rport: reserving neither releases nor consumes");
+    }
+    if (type == rel_res) OBLIGATION(op.status == SUCCEEDED && !p.reserved && g_rels == 1 && g_cons == 0 && g_incs == 0 && g_decs == 0, "C15.join.rport: release closes the reservation and gives the message back to its sender, exactly once");
+    if (type == con_res) OBLIGATION(op.status == SUCCEEDED && !p.reserved && g_cons == 1 && g_rels == 0 && g_incs == 0 && g_decs == 0, "C15.join.rport: consume closes the reservation and consumes the sender's message, exactly once");
+    VACUITY_END();
+}
+#endif
+
+#ifdef JB
+/* join_node_base::handle_operations - ONE arbitrary operation.  The front end (any policy) is a stub that follows a protocol:
+   g_phase 0 no tuple in hand; 1 a tuple was built; 2 a successor accepted it; 3 every successor rejected it. */
+typedef int item_type;
+typedef struct graph_task { int d; } graph_task;
+typedef struct graph { int d; } graph;
+static graph_task T_enq, T_real; static graph G;
+#define SUCCESSFULLY_ENQUEUED (&T_enq)
+typedef struct output_type { item_type e[10]; } output_type;
+struct task_pair { graph_task *first, *second; };
+typedef struct join_node_base_operation { char type; output_type *my_arg; void *my_succ; graph_task *bypass_t; int status; struct join_node_base_operation *next; } join_node_base_operation;
+enum { WAIT = 0, SUCCEEDED = 1, FAILED = 2 };
+unsigned g_status_sets; int g_phase, g_k; bool g_active, g_pull, g_may_last, g_any_ok; size_t g_builds, g_puts, g_put_ok, g_acc, g_rej, g_made, g_spawned, g_newfwd, g_reg, g_rem, g_mays; item_type g_tuple_k; void *g_succ_arg;
+#define SET_STATUS(op, st) do { __CPROVER_assert((op)->status == WAIT, "C15.join.base: an operation gets exactly one final status"); (op)->status = (st); g_status_sets++; } while (0)
+#define TASK3(t) ((t) == NULL || (t) == &T_enq || (t) == &T_real)
+struct jbase;
+static graph *STUB_graph(void) { return &G; }
+static bool STUB_is_graph_active(void) { return g_active; }
+static graph_task *STUB_new_forward_task(struct jbase *self) { g_newfwd++; g_made++; return &T_real; }
+static struct task_pair STUB_order_tasks(graph_task *l, graph_task *r) { struct task_pair p; if (nondet_bool()) { p.first = l; p.second = r; } else { p.first = r; p.second = l; } return p; }
+static void STUB_spawn(graph_task *t) { OBLIGATION(t == &T_real, "C15.join.base: only real tasks are spawned (never NULL or the SUCCESSFULLY_ENQUEUED sentinel)"); g_spawned++; }
+static void STUB_succ_register(struct jbase *self, void *r) { OBLIGATION(r == g_succ_arg, "C15.join.base: the successor that is registered is the caller's"); g_reg++; }
+static void STUB_succ_remove(struct jbase *self, void *r) { OBLIGATION(r == g_succ_arg, "C15.join.base: the successor that is removed is the caller's"); g_rem++; }
+static bool FE_tuple_build_may_succeed(struct jbase *self) { g_mays++; g_may_last = nondet_bool(); return g_may_last; }
+static bool FE_try_to_make_tuple(struct jbase *self, output_type *out) {
+    OBLIGATION(g_phase == 0, "C15.join.base: a new tuple is built only after the previous one was settled (accepted or rejected)");
+    if (nondet_bool()) return false;
+    output_type fresh; *out = fresh;                  /* an arbitrary tuple (uninitialised locals are nondeterministic) */
+    g_tuple_k = out->e[g_k]; g_phase = 1; g_builds++;
+    return true;
+}
+static graph_task *STUB_succ_try_put_task(struct jbase *self, const output_type *t) {     /* broadcast_cache::try_put_task (C14 job cache.broadcast.try_put_task) */
+    OBLIGATION(g_phase == 1, "C15.join.base: only a freshly built tuple is offered to the successors, once");
+    OBLIGATION(t->e[g_k] == g_tuple_k, "C15.join.base: what is offered is the tuple that was built");
+    g_puts++;
+    if (nondet_bool()) { g_phase = 3; return NULL; }
+    g_phase = 2; g_put_ok++; g_any_ok = true;
+    if (nondet_bool()) return SUCCESSFULLY_ENQUEUED;
+    g_made++; return &T_real;
+}
+static void FE_tuple_accepted(struct jbase *self) {
+    OBLIGATION(g_phase == 2 || (g_pull && g_phase == 1), "C15.join.base: input messages are consumed only for a tuple that a successor accepted (or that is handed to a pulling successor)");
+    g_phase = 0; g_acc++;
+}
+static void FE_tuple_rejected(struct jbase *self) {
+    OBLIGATION(g_phase == 3, "C15.join.base: tuple_rejected is reported only for a tuple that every successor rejected");
+    g_phase = 0; g_rej++;
+}
+#define LOOP_jbho_1
+#define LOOP_jbfwd_1 __CPROVER_assigns(build_succeeded, last_task, out, g_phase, g_builds, g_puts, g_put_ok, g_any_ok, g_acc, g_rej, g_made, g_spawned, g_tuple_k) \
+  __CPROVER_loop_invariant(g_phase == 0 && g_rej == 0 && g_acc == g_put_ok && g_puts == g_put_ok && g_builds == g_puts && TASK3(last_task) && ((last_task != NULL) == g_any_ok) \
+     && g_made == g_spawned + (last_task == &T_real ? 1 : 0))
+#include "join_base.inc"
+#ifndef OPK
+#define OPK 0
+#endif
+int IN_type;
+void h_jb_op(void) {
+    struct jbase b; b.forwarder_busy = nondet_bool(); bool fb0 = b.forwarder_busy;
+    g_k = nondet_int(); __CPROVER_assume(g_k >= 0 && g_k < 10);
+    g_active = nondet_bool(); g_phase = 0; g_status_sets = 0; g_builds = g_puts = g_put_ok = g_acc = g_rej = g_made = g_spawned = g_newfwd = g_reg = g_rem = g_mays = 0; g_may_last = g_any_ok = false;
+    int type = IN_type = OPK; __CPROVER_assume(type != do_fwrd);       /* do_fwrd is a dead enumerator: no caller issues it, the handler has no case for it */
+    g_pull = type == try__get;
+    output_type arg; int succ; g_succ_arg = &succ;
+    join_node_base_operation op; op.type = (char)type; op.my_arg = &arg; op.my_succ = &succ; op.bypass_t = NULL; op.status = WAIT; op.next = NULL;
+    if (type == do_fwrd_bypass) __CPROVER_assume(fb0);                 /* issued by the forward task only, which exists only while forwarder_busy */
+    jb_handle_operations(&b, &op);
+    bool fb1 = b.forwarder_busy;
+    OBLIGATION(g_status_sets == 1 && (op.status == SUCCEEDED || op.status == FAILED), "C15.join.base: the operation gets exactly one status");
+    OBLIGATION(g_phase == 0, "C15.join.base: every tuple that was built is settled before the handler returns: its input messages are consumed exactly when a successor accepted it and kept (reservations released) when it was rejected");
+    OBLIGATION(g_acc == g_put_ok + (g_pull ? g_builds : 0) && g_rej == g_puts - g_put_ok, "C15.join.base: one tuple_accepted per accepted tuple, one tuple_rejected per rejected tuple");
+    OBLIGATION(TASK3(op.bypass_t) && g_made == g_spawned + (op.bypass_t == &T_real ? 1 : 0), "C15.join.base: every task produced inside the handler (by an accepting successor or a new forwarder) is spawned or handed back in the operation record - none dropped, none twice");
+    OBLIGATION(!(fb1 && !fb0) || g_newfwd == 1, "C15.join.base: forwarder_busy is set only together with the creation of a forward task");
+    OBLIGATION(g_newfwd <= 1 && (g_newfwd == 0 || fb1), "C15.join.base: a forward task is created at most once and leaves forwarder_busy set");
+    if (type == reg_succ) {
+        OBLIGATION(g_reg == 1 && op.status == SUCCEEDED && g_builds == 0, "C15.join.base: the successor is registered; nothing is consumed");
+        OBLIGATION(!(g_may_last && g_active) || fb1, "C15.join.base: when a successor registers while a tuple may be available a forward task is outstanding");
+        OBLIGATION(!fb0 || fb1, "C15.join.base: forwarder_busy is cleared only by the forward task");
+    } else if (type == rem_succ) {
+        OBLIGATION(g_rem == 1 && op.status == SUCCEEDED && g_builds == 0 && fb1 == fb0, "C15.join.base: the successor is removed; nothing is consumed");
+    } else if (type == try__get) {
+        OBLIGATION((op.status == SUCCEEDED) == (g_builds == 1) && g_builds <= 1 && g_puts == 0 && fb1 == fb0, "C15.join.base: try_get succeeds exactly when a complete tuple could be built, which is then consumed once");
+        OBLIGATION(op.status != SUCCEEDED || arg.e[g_k] == g_tuple_k, "C15.join.base: the pulling successor receives the tuple that was built");
+    } else {
+        OBLIGATION(op.status == SUCCEEDED && !fb1, "C15.join.base: the forward task's operation ends with forwarder_busy cleared");
+        OBLIGATION((op.bypass_t != NULL) == g_any_ok, "C15.join.base: the forward task hands back a successor's task exactly when a tuple was accepted");
+    }
+    VACUITY_END();
+}
+#endif
+
+#ifdef JKP
+/* join_node, key_matching policy: key_matching_port::handle_operations + hash_buffer_impl::insert_with_key / find_with_key / find_ref_with_key - ONE arbitrary
+   operation.  The table is abstract: for ONE arbitrary key g_key, g.has = the port holds a message with that key, g.ek = the element that stores it.
+   The chain walks (find_element_ref_with_key, delete_with_key, internal_insert_with_key, grow_array) are stubs over that view. */
+typedef int key_type;
+typedef struct value_type { key_type key; int payload; } value_type;          /* a message: its key and the rest */
+typedef struct element_type { value_type value; } element_type;
+struct hb_ghost { bool has; element_type ek, eo; };
+typedef struct key_matching_port_operation { char type; value_type my_val; value_type *my_arg; int status; struct key_matching_port_operation *next; } key_matching_port_operation;
+enum { WAIT = 0, SUCCEEDED = 1, FAILED = 2 };
+key_type g_key, g_cur; unsigned g_status_sets; size_t g_dels, g_inserts;
+#define SET_STATUS(op, st) do { __CPROVER_assert((op)->status == WAIT, "C15.join.kport: an operation gets exactly one final status"); (op)->status = (st); g_status_sets++; } while (0)
+#define KEY_OF(v) ((v)->key)
+#define ELEM_value_ptr(e) (&(e)->value)
+struct hashbuf;
+static bool HB_find_element_ref_with_key(struct hashbuf *h, key_type k, element_type **p);
+static void ELEM_destroy(struct hashbuf *h, element_type *p) { }
+static void ELEM_create(struct hashbuf *h, element_type *p, value_type *v) { p->value = *v; }
+static void HB_grow_array(struct hashbuf *h);
+static void HB_internal_insert_with_key(struct hashbuf *h, value_type *v);
+static void HB_delete_with_key(struct hashbuf *h, key_type k);
+static key_type FE_current_key(struct hashbuf *h) { return g_cur; }
+#define LOOP_kpho_1
+#include "hash_buffer.inc"
+static bool HB_find_element_ref_with_key(struct hashbuf *h, key_type k, element_type **p) {
+    if (k == g_key) { if (!h->g.has) return false; *p = &h->g.ek; return true; }
+    if (nondet_bool()) return false;
+    h->g.eo.value.key = k; h->g.eo.value.payload = nondet_int(); *p = &h->g.eo; return true;      /* some element of another key */
+}
+static void HB_grow_array(struct hashbuf *h) { h->my_size = h->my_size * 2; }                    /* keeps every element (not proved here: residue) */
+static void HB_internal_insert_with_key(struct hashbuf *h, value_type *v) {
+    g_inserts++;
+    if (KEY_OF(v) == g_key) { OBLIGATION(!h->g.has, "C15.join.kport: a port never holds two messages with one key"); h->g.has = true; h->g.ek.value = *v; }
+}
+static void HB_delete_with_key(struct hashbuf *h, key_type k) {
+    g_dels++;
+    if (k == g_key) { OBLIGATION(h->g.has, "TBB_ASSERT: key not found for delete"); h->g.has = false; }
+    h->nelements--;
+}
+#include "key_port.inc"
+#ifndef OPK
+#define OPK 0
+#endif
+int IN_type;
+static void kp_one(int type, bool dup_domain) {
+    struct hashbuf h; h.my_size = nondet_size_t(); h.nelements = nondet_size_t(); __CPROVER_assume(h.my_size >= 8 && h.my_size <= ((size_t)1 << 40) && h.nelements * 2 <= h.my_size);
+    g_key = nondet_int(); g_cur = nondet_int(); h.g.has = nondet_bool(); h.g.ek.value.key = g_key; h.g.ek.value.payload = nondet_int();
+    bool has0 = h.g.has; value_type old = h.g.ek.value; g_status_sets = 0; g_dels = g_inserts = 0;
+    value_type m; m.key = nondet_int(); m.payload = nondet_int(); value_type got; got.key = nondet_int(); got.payload = nondet_int();
+    key_matching_port_operation op; op.type = (char)type; op.my_val = m; op.my_arg = &got; op.status = WAIT; op.next = NULL; IN_type = type;
+    bool dup = type == try__put && m.key == g_key && has0;
+    __CPROVER_assume(dup == dup_domain);
+    if (type != try__put && g_cur == g_key) __CPROVER_assume(has0);    /* get_item / reset_port name a key only after every port counted a message with it (job join.fe.key.inc_count) */
+    kp_handle_operations(&h, &op);
+    OBLIGATION(g_status_sets == 1 && (op.status == SUCCEEDED || op.status == FAILED), "C15.join.kport: the operation gets exactly one status");
+    OBLIGATION(!h.g.has || h.g.ek.value.key == g_key, "C15.join.kport: a stored message is filed under its own key");
+    if (type == try__put) {
+        if (dup) {
+            OBLIGATION(op.status == FAILED && g_inserts == 0, "C15.join.kport: a second message with a key the port already holds is rejected");
+            OBLIGATION(h.g.has && h.g.ek.value.key == old.key && h.g.ek.value.payload == old.payload, "C15.join.kport: a put that is reported as rejected leaves the message the port holds for that key untouched (the accepted message is not lost, the rejected one is not used)");
+        } else if (m.key == g_key) {
+            OBLIGATION(op.status == SUCCEEDED && h.g.has && h.g.ek.value.key == m.key && h.g.ek.value.payload == m.payload, "C15.join.kport: an accepted put stores the message under its key");
+        } else
+            OBLIGATION(h.g.has == has0 && h.g.ek.value.payload == old.payload, "C15.join.kport: messages with other keys are untouched");
+        OBLIGATION(g_dels == 0, "C15.join.kport: a put removes nothing");
+    } else if (type == get__item) {
+        OBLIGATION(g_cur != g_key || (op.status == SUCCEEDED && got.key == g_cur && got.payload == old.payload), "C15.join.kport: get_item hands out the port's message whose key is the join's current key");
+        OBLIGATION(h.g.has == has0 && h.g.ek.value.payload == old.payload && g_dels == 0 && g_inserts == 0, "C15.join.kport: get_item consumes nothing");
+    } else {
+        OBLIGATION(op.status == SUCCEEDED && g_dels == 1 && g_inserts == 0, "C15.join.kport: reset_port retires one message");
+        OBLIGATION(g_cur == g_key ? !h.g.has : (h.g.has == has0 && h.g.ek.value.payload == old.payload), "C15.join.kport: the message retired is exactly the one with the join's current key; other keys are untouched");
+    }
+}
+void h_kp_op(void) { kp_one(OPK, false); VACUITY_END(); }
+void h_kp_dup(void) { kp_one(try__put, true); VACUITY_END(); }
+#endif
+
+#ifdef JKF
+/* join_node, key_matching policy: join_node_FE<key_matching>::handle_operations + fill_output_buffer (+ join_helper<N>::get_items / reset_ports and the
+   real hash_buffer_impl::insert_with_key / find_ref_with_key on the count table) - ONE arbitrary operation.  Facts are about ONE arbitrary key g_key and ONE
+   arbitrary port g_k.  Ghost census for g_key: g_ck = port g_k's message with key g_key has been counted, g_nco = number of other ports whose message with that
+   key has been counted.  INV: the count table holds an entry for g_key iff g_nco + g_ck >= 1, and its value is g_nco + g_ck (< N at rest).
+   The table is abstract: two tracked keys, g_key (g.has / g.ek) and - when different - the key of the operation (g.oth / g.eo). */
+typedef int key_type;
+typedef struct item_type { key_type key; int payload; } item_type;                       /* a message: its key and the rest */
+typedef struct value_type { key_type my_key; size_t my_value; } value_type;            /* count_element<K> */
+typedef struct element_type { value_type value; } element_type;
+struct hb_ghost { bool has, oth; element_type ek, eo; };
+typedef struct graph_task { int d; } graph_task;
+static graph_task T_fwd;
+typedef struct output_type { item_type e[10]; } output_type;
+#define TUPLE_AT(out, i) (&(out)->e[i])
+typedef struct key_matching_FE_operation { char type; key_type my_val; output_type *my_output; graph_task *bypass_t; int status; struct key_matching_FE_operation *next; } key_matching_FE_operation;
+enum { WAIT = 0, SUCCEEDED = 1, FAILED = 2 };
+struct hashbuf; typedef struct hashbuf ports_t;
+int N, g_k; key_type g_key, g_opkey; unsigned g_status_sets; bool g_active, g_ck, g_all; size_t g_nco, g_made, g_dels, g_del_k, g_inserts, g_gets, g_get_k, g_resets, g_reset_k, g_ob_n, g_ob_pushes, g_ob_pops; int g_mk;
+output_type g_pushed, g_front;
+#define SET_STATUS(op, st) do { __CPROVER_assert((op)->status == WAIT, "C15.join.kfe: an operation gets exactly one final status"); (op)->status = (st); g_status_sets++; } while (0)
+#define KEY_OF(v) ((v)->my_key)
+#define ELEM_value_ptr(e) (&(e)->value)
+static bool STUB_is_graph_active(void) { return g_active; }
+static graph_task *STUB_new_forward_task(struct hashbuf *self) { g_made++; return &T_fwd; }
+static bool HB_find_element_ref_with_key(struct hashbuf *h, key_type k, element_type **p);
+static void ELEM_destroy(struct hashbuf *h, element_type *p) { }
+static void ELEM_create(struct hashbuf *h, element_type *p, value_type *v) { p->value = *v; }
+static void HB_grow_array(struct hashbuf *h);
+static void HB_internal_insert_with_key(struct hashbuf *h, value_type *v);
+static void HB_delete_with_key(struct hashbuf *h, key_type k);
+#include "hash_buffer_fe.inc"
+static bool HB_find_element_ref_with_key(struct hashbuf *h, key_type k, element_type **p) {
+    if (k == g_key) { if (!h->g.has) return false; *p = &h->g.ek; return true; }
+    if (h->g.oth && h->g.eo.value.my_key == k) { *p = &h->g.eo; return true; }
+    return false;
+}
+static void HB_grow_array(struct hashbuf *h) { h->my_size = h->my_size * 2; }                    /* keeps every element (not proved here: residue) */
+static void HB_internal_insert_with_key(struct hashbuf *h, value_type *v) {
+    g_inserts++;
+    if (KEY_OF(v) == g_key) { OBLIGATION(!h->g.has, "C15.join.kfe: the count table never holds two entries for one key"); h->g.has = true; h->g.ek.value = *v; }
+    else { OBLIGATION(!(h->g.oth && h->g.eo.value.my_key == KEY_OF(v)), "C15.join.kfe: the count table never holds two entries for one key"); h->g.oth = true; h->g.eo.value = *v; }
+}
+static void HB_delete_with_key(struct hashbuf *h, key_type k) {
+    g_dels++;
+    if (k == g_key) { OBLIGATION(h->g.has, "TBB_ASSERT: key not found for delete"); h->g.has = false; g_del_k++; }
+    else if (h->g.oth && h->g.eo.value.my_key == k) h->g.oth = false;
+    h->nelements--;
+}
+/* the output buffer (item_buffer<OutputTuple>): FIFO of completed tuples (push_back / front / destroy_front: job buffer.push_pop) */
+static bool OB_buffer_empty(struct hashbuf *h) { return g_ob_n == 0; }
+static void OB_push_back(struct hashbuf *h, output_type *t) { g_ob_pushes++; g_ob_n++; g_pushed = *t; }
+static const output_type *OB_front(struct hashbuf *h) { OBLIGATION(g_ob_n > 0, "C15.join.kfe: the front of an empty output buffer is never read"); return &g_front; }
+static void OB_destroy_front(struct hashbuf *h) { OBLIGATION(g_ob_n > 0, "C15.join.kfe: nothing is removed from an empty output buffer"); g_ob_n--; g_ob_pops++; }
+static struct hashbuf *F;
+static key_type cur_key(struct hashbuf *h);
+/* the ports (jobs join.kport.*): get_item hands out the port's message filed under the join's current key; reset_port retires it */
+static bool PORT_get_item(ports_t *f, int k, item_type *v) {
+    OBLIGATION(k >= 0 && k < N, "C15.join.kfe: only existing ports are addressed");
+    OBLIGATION(cur_key(f) == g_opkey, "C15.join.kfe: every port is asked for the key whose count has just reached N");
+    OBLIGATION(cur_key(f) != g_key || g_all, "C15.join.kfe: ports are asked for a key only after all N ports have counted a message with it");
+    g_gets++; v->key = cur_key(f); v->payload = nondet_int();
+    if (k == g_k && cur_key(f) == g_key) { g_get_k++; v->payload = g_mk; }
+    return true;
+}
+static void PORT_reset_port(ports_t *f, int k) {
+    OBLIGATION(k >= 0 && k < N, "C15.join.kfe: only existing ports are addressed");
+    OBLIGATION(cur_key(f) == g_opkey, "C15.join.kfe: every port retires the message with the key whose count has just reached N");
+    OBLIGATION(g_ob_pushes == 1, "C15.join.kfe: input messages are retired only after the tuple made of them is stored in the output buffer");
+    g_resets++; if (k == g_k && cur_key(f) == g_key) g_reset_k++;
+}
+static bool PORT_reserve(ports_t *f, int k, item_type *v) { __CPROVER_assert(0, "not used by the key_matching policy"); return false; }
+static void PORT_consume(ports_t *f, int k) { __CPROVER_assert(0, "not used by the key_matching policy"); }
+static void PORT_release(ports_t *f, int k) { __CPROVER_assert(0, "not used by the key_matching policy"); }
+#include "join_helper.inc"
+#define LOOP_fkho_1
+#include "key_fe.inc"
+static key_type cur_key(struct hashbuf *h) { return h->current_key; }
+#define KINV(h) ((h)->g.has == (g_nco + (g_ck ? 1 : 0) >= 1) && (!(h)->g.has || ((h)->g.ek.value.my_key == g_key && (h)->g.ek.value.my_value == g_nco + (g_ck ? 1 : 0))) && g_nco <= (size_t)(N - 1) && g_nco + (g_ck ? 1 : 0) < (size_t)N)
+#ifndef OPK
+#define OPK 0
+#endif
+int IN_type;
+void h_kfe_op(void) {
+    struct hashbuf h; F = &h; h.my_size = nondet_size_t(); h.nelements = nondet_size_t(); __CPROVER_assume(h.my_size >= 8 && h.my_size <= ((size_t)1 << 40) && h.nelements * 2 <= h.my_size);
+    N = nondet_int(); g_k = nondet_int(); __CPROVER_assume(N >= 1 && N <= 10 && g_k >= 0 && g_k < N);
+    g_key = nondet_int(); key_type t = g_opkey = nondet_int(); h.current_key = nondet_int(); g_mk = nondet_int();
+    h.g.has = nondet_bool(); h.g.ek.value.my_key = g_key; h.g.ek.value.my_value = nondet_size_t(); g_nco = nondet_size_t(); g_ck = nondet_bool(); __CPROVER_assume(KINV(&h));
+    h.g.oth = nondet_bool(); h.g.eo.value.my_key = t; h.g.eo.value.my_value = nondet_size_t(); __CPROVER_assume(t != g_key && (!h.g.oth || (h.g.eo.value.my_value >= 1 && h.g.eo.value.my_value < (size_t)N)) || (t == g_key && !h.g.oth));
+    g_active = nondet_bool(); g_status_sets = 0; g_made = g_dels = g_del_k = g_inserts = g_gets = g_get_k = g_resets = g_reset_k = g_ob_pushes = g_ob_pops = 0; g_all = false;
+    g_ob_n = nondet_size_t(); __CPROVER_assume(g_ob_n < ((size_t)1 << 32)); size_t n0 = g_ob_n; item_type f0; f0.key = nondet_int(); f0.payload = nondet_int(); g_front.e[g_k] = f0;
+    int type = IN_type = OPK; output_type out;
+    key_matching_FE_operation op; op.type = (char)type; op.my_val = t; op.my_output = &out; op.bypass_t = NULL; op.status = WAIT; op.next = NULL;
+    bool has0 = h.g.has; size_t v0 = h.g.ek.value.my_value; bool oth_complete = false;
+    if (type == inc_count) {
+        /* the operation reports that one port (p) has stored a message with key t that was not counted before (job join.kport.try_put: accepted puts only) */
+        int p = nondet_int(); __CPROVER_assume(p >= 0 && p < N);
+        if (t == g_key) { if (p == g_k) { __CPROVER_assume(!g_ck); g_ck = true; } else { __CPROVER_assume(g_nco + 1 <= (size_t)(N - 1)); g_nco++; } g_all = g_nco + (g_ck ? 1 : 0) == (size_t)N; }
+        else oth_complete = (h.g.oth ? h.g.eo.value.my_value : 0) + 1 == (size_t)N;
+    }
+    if (type == res_count) __CPROVER_assume(n0 >= 1);      /* reset_port_count is issued by tuple_accepted only, after a successful try_to_make_tuple (job join.base.*) */
+    fek_handle_operations(&h, &op);
+    OBLIGATION(g_status_sets == 1 && (op.status == SUCCEEDED || op.status == FAILED), "C15.join.kfe: the operation gets exactly one status");
+    if (type == inc_count) {
+        OBLIGATION(op.status == SUCCEEDED, "C15.join.kfe: counting succeeds");
+        if (t == g_key && g_all) {
+            OBLIGATION(g_gets == (size_t)N && g_get_k == 1 && g_ob_pushes == 1 && g_ob_n == n0 + 1, "C15.join.kfe: when the N-th message with a key is counted exactly one tuple is made, from one message of every port");
+            OBLIGATION(g_pushed.e[g_k].key == g_key && g_pushed.e[g_k].payload == g_mk, "C15.join.kfe: component k of the tuple is port k's message with that key (all components carry the same key)");
+            OBLIGATION(g_resets == (size_t)N && g_reset_k == 1, "C15.join.kfe: every port retires its message with that key exactly once (each message is used once)");
+            OBLIGATION(!h.g.has && g_del_k == 1, "C15.join.kfe: the key's count entry is removed, so that counting starts afresh for the next message with this key");
+            OBLIGATION((!(n0 == 0 && g_active) || g_made == 1) && g_made <= 1 && op.bypass_t == (g_made ? &T_fwd : NULL), "C15.join.kfe: when the output buffer was empty (graph active) a forward task is created; a task that is created is handed back in the operation record, not dropped");
+            g_nco = 0; g_ck = false;
+        } else if (t == g_key) {
+            OBLIGATION(g_gets == 0 && g_resets == 0 && g_ob_pushes == 0 && g_made == 0 && op.bypass_t == NULL, "C15.join.kfe: no tuple is made before all N ports have counted a message with the key (only complete tuples)");
+        } else {
+            OBLIGATION(g_get_k == 0 && g_reset_k == 0 && g_del_k == 0, "C15.join.kfe: messages and count of other keys are untouched");
+            OBLIGATION((g_ob_pushes == 1) == oth_complete && g_gets == (oth_complete ? (size_t)N : 0), "C15.join.kfe: a tuple is made exactly when the count of the operation's key reaches N");
+        }
+        OBLIGATION(KINV(&h), "C15.join.kfe: the count entry of a key equals the number of ports that have counted a message with it");
+    } else {
+        OBLIGATION(h.g.has == has0 && h.g.ek.value.my_value == v0 && g_gets == 0 && g_resets == 0 && g_ob_pushes == 0 && g_made == 0, "C15.join.kfe: operations of the back end touch neither counts nor ports");
+        if (type == may_succeed) OBLIGATION((op.status == SUCCEEDED) == (n0 > 0) && g_ob_n == n0, "C15.join.kfe: tuple_build_may_succeed reports whether a completed tuple is waiting");
+        if (type == try_make) OBLIGATION((op.status == SUCCEEDED) == (n0 > 0) && g_ob_n == n0 && (op.status != SUCCEEDED || (out.e[g_k].key == f0.key && out.e[g_k].payload == f0.payload)), "C15.join.kfe: try_to_make_tuple hands out the oldest completed tuple and leaves it in the output buffer");
+        if (type == res_count) OBLIGATION(op.status == SUCCEEDED && g_ob_pops == 1 && g_ob_n == n0 - 1, "C15.join.kfe: an accepted tuple is removed from the output buffer exactly once");
+    }
+    VACUITY_END();
+}
+#endif
+
+#ifdef PQ
+/* priority_queue_node on the real item_buffer (one flattened object: item_buffer + my_reserved + forwarder_busy + mark + reserved_item; Compare = std::less<int>).
+   The heap lives at indices [0,mark) (my_head == 0 always), items [mark,tail) are pushed but not yet merged.  All heap facts are about ONE arbitrary index GH. */
+#include "c15_prelude.inc"      /* the SEQ prelude of this file (types, IB_SHAPE, CONTRACT_grow_my_array and its loop invariants), cut out by spec.py */
+typedef struct graph_task { int d; } graph_task;
+typedef struct graph { int d; } graph;
+static graph_task T_enq, T_real; static graph G;
+#define SUCCESSFULLY_ENQUEUED (&T_enq)
+enum { reg_succ, rem_succ, req_item, res_item, rel_res, con_res, put_item, try_fwd_task };
+typedef struct buffer_operation { char type; item_type *elem; graph_task *ltask; void *r; int status; struct buffer_operation *next; } buffer_operation;
+typedef buffer_operation prio_operation;
+struct task_pair { graph_task *first, *second; };
+struct item_buffer;
+#define COMPARE(a, b) ((a) < (b))                       /* Compare = std::less<int> */
+#ifdef PQ_LOOPS
+#define VALID_ASSERT(c, m) ((void)0)                    /* see spec.py: validity of a state-dependent slot is a universal fact (not decided in the heap-loop jobs) */
+#else
+#define VALID_ASSERT(c, m) VERIF_ASSERT(c, m)
+#endif
+#define EMPTY_ASSERT(c, m) VERIF_ASSERT(c, m)
+#define VALI(i) (SLOTN(self, i).item)
+#define STATE(i) (SLOTN(self, i).state)
+#define GE(u, v) (!COMPARE(VALI(u), VALI(v)))           /* item[u] >= item[v] */
+#define EDGE(u, v) ((v) >= self->mark || GE(u, v))      /* heap edge u -> v (v a child of u), if v lies in the heap region */
+#define PAR(i) (((i) - 1) >> 1)
+#define HEAPAT(g) ((g) == 0 || (g) >= self->mark || GE(PAR(g), g))
+/* slot states of the node at an arbitrary index: an item at every index of [0,tail), nothing elsewhere in the array */
+#define PRI(b, j) ((j) < (b)->my_tail ? SLOTN(b, j).state == has_item : (!((j) < (b)->my_array_size) || SLOTN(b, j).state == no_item))
+#define PQ_FRESH(self) (__CPROVER_is_fresh(self, sizeof(*self)) && IB_SHAPE(self) && self->my_head == 0 && self->mark <= self->my_tail \
+     && __CPROVER_is_fresh(self->my_array, self->my_array_size * sizeof(aligned_space_item)))
+#define PQ_SAME(self) (self->my_array == __CPROVER_old(self->my_array) && self->my_array_size == __CPROVER_old(self->my_array_size) && self->my_head == 0 \
+     && self->my_tail == __CPROVER_old(self->my_tail) && self->my_reserved == __CPROVER_old(self->my_reserved) && self->forwarder_busy == __CPROVER_old(self->forwarder_busy) \
+     && self->reserved_item == __CPROVER_old(self->reserved_item))
+/* ---- reheap: the root was replaced; every heap edge that does not start at the root holds (instances at GH: the edge into GH and the two edges out of GH) ---- */
+#define RH_PRE(g) ((g) == 0 || (g) >= self->mark || ((PAR(g) == 0 || GE(PAR(g), g)) && EDGE(g, 2 * (g) + 1) && EDGE(g, 2 * (g) + 2)))
+#define RH_INV(g) ((g) == 0 || (g) >= self->mark || ( \
+       ((cur_pos != PAR(g) && cur_pos != (g)) ? GE(PAR(g), g) : 1) \
+    && ((cur_pos <= PAR(g)) ? (EDGE(g, 2 * (g) + 1) && EDGE(g, 2 * (g) + 2)) : 1) \
+    && ((cur_pos == (g)) ? (GE(PAR(g), g) && EDGE(PAR(g), 2 * (g) + 1) && EDGE(PAR(g), 2 * (g) + 2)) : 1)))
+#define CONTRACT_pq_reheap \
+  __CPROVER_requires(PQ_FRESH(self) && RH_PRE(GH) && PRI(self, GH)) \
+  __CPROVER_assigns(__CPROVER_object_whole(self->my_array)) \
+  __CPROVER_ensures(PQ_SAME(self) && self->mark == __CPROVER_old(self->mark)) \
+  __CPROVER_ensures(HEAPAT(GH)) \
+  __CPROVER_ensures(GH < self->mark || GH >= self->my_array_size || VALI(GH) == __CPROVER_old(VALI(GH))) \
+  __CPROVER_ensures(PRI(self, GH))
+#define LOOP_pqreheap_1 __CPROVER_assigns(cur_pos, child, __CPROVER_object_whole(self->my_array)) \
+  __CPROVER_loop_invariant(child == 2 * cur_pos + 1 && cur_pos <= self->mark && RH_INV(GH) && (GH < self->mark || GH >= self->my_array_size || VALI(GH) == __CPROVER_loop_entry(VALI(GH))) \
+     && (GH >= self->my_array_size || STATE(GH) == __CPROVER_loop_entry(STATE(GH)) || (GH < self->mark && STATE(GH) == has_item))) \
+  __CPROVER_decreases(self->mark - cur_pos)
+/* ---- heapify: merges the items [mark,tail) into the heap one by one.
+   (1) One merge (the body of the outer loop, outlined by spec.py into pq_heapify_merge_one because dfcc cannot digest the two nested loops) re-establishes
+       heap order at an arbitrary index x from heap order at x and at parent(x): lemma MO_PRE1(x) ==> MO_POST1(x), ENFORCED for x = GH (job prio.heapify.merge_one).
+   (2) The outer loop keeps heap order on the whole path from GH to the root (closure under `parent`; ANCK(k) is the k-th ancestor of GH, 17 levels cover
+       every index below 2^16, the stated buffer bound); it USES the lemma at the 17 path nodes (instances of (1) for other values of the arbitrary GH). ---- */
+#define HEAPB(x, M) ((x) == 0 || (x) >= (M) || GE(PAR(x), x))
+#define MO_PRE1(x) (HEAPB(x, self->mark) && ((x) == 0 || HEAPB(PAR(x), self->mark)))
+#define MO_POST1(x) HEAPB(x, self->mark + 1)
+#define ANCK(k) ((((GH) + 1) >> (k)) - 1)
+#define ALL17(F) (F(ANCK(0)) && F(ANCK(1)) && F(ANCK(2)) && F(ANCK(3)) && F(ANCK(4)) && F(ANCK(5)) && F(ANCK(6)) && F(ANCK(7)) && F(ANCK(8)) && F(ANCK(9)) && F(ANCK(10)) && F(ANCK(11)) \
+                  && F(ANCK(12)) && F(ANCK(13)) && F(ANCK(14)) && F(ANCK(15)) && F(ANCK(16)))
+#define HEAPM(x) HEAPB(x, self->mark)
+#define HP_PATH (GH >= self->my_tail || ALL17(HEAPM))
+#ifdef PQ_MERGE_ENFORCE
+#define MO_REQ MO_PRE1(GH)
+#define MO_ENS MO_POST1(GH)
+#else
+#define MO_REQ (GH >= self->my_tail || ALL17(MO_PRE1))
+#define MO_ENS (GH >= self->my_tail || ALL17(MO_POST1))
+#endif
+/* inner loop at the fixed index g: hole at cur_pos, item to_place in hand, region [0..mark]: the edge into g holds unless it touches the hole; a child of the
+   hole is dominated by the item in hand and by the hole's parent; the edge into parent(g) is intact while the hole is below parent(g) */
+#define HI(g) ((g) == 0 || (g) > self->mark || ( \
+      (((g) != cur_pos && PAR(g) != cur_pos) ? GE(PAR(g), g) : 1) \
+   && ((PAR(g) == cur_pos) ? (!COMPARE(to_place, VALI(g)) && (cur_pos == 0 || GE(PAR(cur_pos), g))) : 1) \
+   && ((cur_pos > PAR(g) && PAR(g) > 0) ? GE(PAR(PAR(g)), PAR(g)) : 1)))
+#define CONTRACT_pq_heapify
+#define CONTRACT_pq_merge_one \
+  __CPROVER_requires(PQ_FRESH(self) && self->mark >= 1 && self->mark < self->my_tail && MO_REQ && PRI(self, GH)) \
+  __CPROVER_assigns(__CPROVER_object_whole(self->my_array)) \
+  __CPROVER_ensures(PQ_SAME(self) && self->mark == __CPROVER_old(self->mark)) \
+  __CPROVER_ensures(MO_ENS) \
+  __CPROVER_ensures(PRI(self, GH))
+#ifdef PQ_MERGE_STUB
+#define LOOP_pqheapify_1 __CPROVER_assigns(self->mark, g_expect, g_merges) \
+  __CPROVER_loop_invariant(self->mark >= 1 && self->mark <= self->my_tail && g_expect == self->mark && g_merges == self->mark - g_mark1) __CPROVER_decreases(self->my_tail - self->mark)
+#else
+#define LOOP_pqheapify_1
+#endif
+#define LOOP_pqheapify_2 __CPROVER_assigns(cur_pos, __CPROVER_object_whole(self->my_array)) \
+  __CPROVER_loop_invariant(cur_pos >= 1 && cur_pos <= self->mark && self->mark < self->my_tail && STATE(cur_pos) == no_item && HI(GH) \
+     && (GH == cur_pos || PRI(self, GH))) __CPROVER_decreases(cur_pos)
+#define LOOP_bnho_1
+#define LOOP_bnfwd_1
+/* stubs of the handler part (used by the operation jobs) */
+size_t g_nsucc; bool g_active; unsigned g_status_sets; size_t g_made, g_spawned, g_newfwd, g_reg, g_rem, g_offers, g_accepts; item_type g_offered_val; bool g_offer_acc;
+#define SET_STATUS(op, st) do { __CPROVER_assert((op)->status == WAIT, "C15.prio: an operation gets exactly one final status"); (op)->status = (st); g_status_sets++; } while (0)
+static graph *STUB_graph(void) { return &G; }
+static bool STUB_is_graph_active(void) { return g_active; }
+static graph_task *STUB_new_forward_task(struct item_buffer *self) { g_newfwd++; g_made++; return &T_real; }
+static struct task_pair STUB_order_tasks(graph_task *l, graph_task *r) { struct task_pair p; if (nondet_bool()) { p.first = l; p.second = r; } else { p.first = r; p.second = l; } return p; }
+static void STUB_spawn(graph_task *t) { OBLIGATION(t == &T_real, "C15.prio: only real tasks are spawned"); g_spawned++; }
+static size_t STUB_succ_size(struct item_buffer *self) { return g_nsucc; }
+static void STUB_succ_register(struct item_buffer *self, void *r) { g_nsucc++; g_reg++; }
+static void STUB_succ_remove(struct item_buffer *self, void *r) { if (g_nsucc > 0 && nondet_bool()) g_nsucc--; g_rem++; }
+static graph_task *STUB_succ_try_put_task(struct item_buffer *self, const item_type *it);
+#define DERIVED_order pq_order
+#define DERIVED_is_item_valid pq_is_item_valid
+#define DERIVED_try_put_and_add_task pq_try_put_and_add_task
+#define VIRT_internal_reg_succ bn_internal_reg_succ
+#define VIRT_internal_rem_succ bn_internal_rem_succ
+#define VIRT_internal_pop pq_internal_pop
+#define VIRT_internal_reserve pq_internal_reserve
+#define VIRT_internal_release pq_internal_release
+#define VIRT_internal_consume pq_internal_consume
+#define VIRT_internal_push pq_internal_push
+#define VIRT_internal_forward_task pq_internal_forward_task
+size_t g_expect, g_merges, g_mark1;
+#ifdef PQ_MERGE_STUB
+/* outer loop of heapify: the merge step (its own job) is a stub that only records how it is called */
+static void STUB_merge_one(struct item_buffer *self);
+#define CALL_pq_heapify_merge_one STUB_merge_one
+#else
+#define CALL_pq_heapify_merge_one pq_heapify_merge_one
+#endif
+#include "priority_node.inc"
+#ifdef PQ_MERGE_STUB
+static void STUB_merge_one(struct item_buffer *self) {
+    OBLIGATION(self->mark >= 1 && self->mark < self->my_tail, "C15.prio: heapify merges an item only while unmerged items exist, never the root slot (precondition of the merge step)");
+    OBLIGATION(self->mark == g_expect, "C15.prio: heapify merges the unmerged items one by one in index order, each exactly once");
+    g_expect = self->mark + 1; g_merges++;
+}
+#endif
+static graph_task *STUB_succ_try_put_task(struct item_buffer *self, const item_type *it) {
+    g_offers++; g_offered_val = *it; g_offer_acc = nondet_bool();
+    if (!g_offer_acc) return NULL;
+    g_accepts++; if (nondet_bool()) return SUCCESSFULLY_ENQUEUED; g_made++; return &T_real;
+}
+static struct item_buffer *mk_pq(void) {
+    struct item_buffer *b = malloc(sizeof(*b)); __CPROVER_assume(b != NULL);
+    b->my_array_size = nondet_size_t(); b->my_head = 0; b->my_tail = nondet_size_t(); b->mark = nondet_size_t(); b->my_reserved = nondet_bool(); b->forwarder_busy = nondet_bool(); b->reserved_item = nondet_int();
+    __CPROVER_assume(IB_SHAPE(b) && b->mark <= b->my_tail);
+    b->my_array = malloc(b->my_array_size * sizeof(aligned_space_item)); __CPROVER_assume(b->my_array != NULL);
+    return b;
+}
+void h_pq_reheap(void) { struct item_buffer *b; pq_reheap(b); VACUITY_END(); }
+void h_pq_merge_one(void) { struct item_buffer *b; pq_heapify_merge_one(b); VACUITY_END(); }
+static struct item_buffer PQB;
+void h_pq_heapify(void) {
+    struct item_buffer *self = &PQB;
+    self->my_array_size = nondet_size_t(); self->my_head = 0; self->my_tail = nondet_size_t(); self->mark = nondet_size_t(); __CPROVER_assume(IB_SHAPE(self) && self->mark <= self->my_tail);
+    self->my_array = malloc(self->my_array_size * sizeof(aligned_space_item)); __CPROVER_assume(self->my_array != NULL);
+    size_t t0 = self->my_tail, m0 = self->mark; g_mark1 = m0 ? m0 : 1; g_expect = g_mark1; g_merges = 0;
+    pq_heapify(self);
+    OBLIGATION(self->mark == self->my_tail && self->my_tail == t0 && self->my_head == 0, "C15.prio: heapify ends with mark == tail and moves neither end of the buffer");
+    OBLIGATION(t0 == 0 ? g_merges == 0 : g_merges == t0 - g_mark1, "C15.prio: exactly the items of [max(mark,1),tail) are merged, each once");
+    VACUITY_END();
+}
+/* the outer loop's invariant `heap order on the whole path of GH` supplies the precondition instances of the merge lemma at the 17 path nodes (closure under parent) */
+void h_pq_closure(void) {
+    struct item_buffer *self = mk_pq(); GH = nondet_size_t();
+    __CPROVER_assume(self->mark >= 1 && self->mark < self->my_tail && HP_PATH);
+    OBLIGATION(GH >= self->my_tail || ALL17(MO_PRE1), "C15.prio: heap order along the path of an arbitrary index implies, at each of the 17 path nodes, the precondition of the merge lemma (order at the node and at its parent)");
+    size_t m = self->mark; __CPROVER_assume(GH >= self->my_tail || ALL17(MO_POST1)); self->mark = m + 1;
+    OBLIGATION(HP_PATH, "C15.prio: the lemma's postcondition at the 17 path nodes is the path invariant for mark + 1");
+    VACUITY_END();
+}
+void h_pq_swap(void) {
+    struct item_buffer *self = mk_pq(); size_t i = nondet_size_t(), j = nondet_size_t(); GH = nondet_size_t();
+    __CPROVER_assume(i < self->my_tail && j < self->my_tail && PRI(self, i) && PRI(self, j) && PRI(self, GH));
+    item_type vi = VALI(i), vj = VALI(j), vg = VALI(GH); int sg = STATE(GH);
+    item_buffer_swap_items(self, i, j);
+    OBLIGATION(VALI(i) == vj && VALI(j) == vi && STATE(i) == has_item && STATE(j) == has_item, "C15.prio: swap_items exchanges the two items");
+    OBLIGATION((SLOTN(self, GH).item == vg && STATE(GH) == sg) || (GH & (self->my_array_size - 1)) == i || (GH & (self->my_array_size - 1)) == j, "C15.prio: swap_items touches no other slot");
+    VACUITY_END();
+}
 #endif
